@@ -126,6 +126,9 @@ type ParamsOp struct {
 	MaxRequestTimeout int64  `json:"max_request_timeout,omitempty"`
 	ArbitrationNs     int64  `json:"arbitration_ns,omitempty"`
 	ComplaintNs       int64  `json:"complaint_ns,omitempty"`
+	// deposit parameters: only the C14 profile changes them (DESIGN §4 F12, §10.6)
+	MinDeposit         int64 `json:"min_deposit,omitempty"`
+	MinDepositMultiple int64 `json:"min_deposit_multiple,omitempty"`
 }
 
 // ---- address references ---------------------------------------------------------------------
